@@ -434,7 +434,13 @@ class TaskShuffle(SimpleShuffle):
             if stage == (stages - 1) and npartitions == npartitions_input:
                 name = self._name
                 parts_out = self._partitions
-                _filter = parts_out if self._filtered else None
+                # The groups of a stage are keyed by the digit of that stage,
+                # not by the number of the output partition
+                _filter = (
+                    {inputs[part][stage] for part in parts_out}
+                    if self._filtered
+                    else None
+                )
             else:
                 name = f"stage-{stage}-{self._name}"
                 _filter = None
